@@ -376,8 +376,10 @@ def run_case(ctx, case):
     le, A = case['le'], case['addr_size']
     secs, exp = build(case)
     try:
-        di = D.make_dwarfinfo(secs, le, A)
+        di = D.make_dwarfinfo(secs, le, case.get('file_addr_size', A))
         cus = list(di.iter_CUs())
+        if case.get('file_addr_size', A) != A:
+            ctx.count('unit-address-size-differs-from-file')
     except Exception as e:  # noqa
         ctx.fail_exc('open', e, case)
         return
@@ -537,6 +539,35 @@ def run_case(ctx, case):
                 ctx.count('blocks.%s' % sect)
             except Exception as e:  # noqa
                 ctx.fail_exc('blocks|%s|iter_CUs' % sect, e, case)
+            # the same enumeration consumed step by step while lists of other blocks are fetched in between (a dumper's natural loop)
+            try:
+                stream = (di.debug_loclists_sec if sect == 'loc' else di.debug_rnglists_sec).stream
+                it = obj.iter_CUs()
+                stepped = []
+                for bi in range(len(blocks) + 1):
+                    h = next(it, None)
+                    if h is None:
+                        break
+                    stepped.append(h['cu_offset'])
+                    tgt = blocks[(bi * 7 + 1) % len(blocks)]
+                    if tgt['lists']:
+                        off = tgt['lists'][-1 if bi % 2 else 0]['off']
+                        try:
+                            if sect == 'rng':
+                                obj.get_range_list_at_offset_ex(off)
+                            else:
+                                stream.seek(off + 1)
+                        except Exception:  # noqa   (the fetch itself is judged elsewhere)
+                            pass
+                    else:
+                        stream.seek(0)
+                if stepped != [b['cu_offset'] for b in blocks]:
+                    ctx.fail('blocks|%s|iter_CUs|interleaved-with-fetches' % sect, 'blocks at %r; stepping through iter_CUs() with list fetches in between visited %r' % (
+                        [b['cu_offset'] for b in blocks], stepped), case)
+                if len(blocks) >= 2:
+                    ctx.count('blocks.stepwise.%s' % sect)
+            except Exception as e:  # noqa
+                ctx.fail_exc('blocks|%s|iter_CUs|interleaved-with-fetches' % sect, e, case)
     ctx.count('cell.a%d.%s' % (A, 'le' if le else 'be'))
     for key in ('loc5', 'rng5'):
         for B in case.get(key) or []:
@@ -576,8 +607,8 @@ def gen_v4_list(ch, A, loc):
     return L
 
 
-def gen_v5_list(ch, A, loc, naddr):
-    kinds = ['offset_pair', 'base_address', 'start_end', 'start_length'] + (['default_location'] if loc else [])
+def gen_v5_list(ch, A, loc, naddr, indexed_only=False):
+    kinds = ['offset_pair'] + ([] if indexed_only else ['base_address', 'start_end', 'start_length']) + (['default_location'] if loc else [])
     if naddr:
         kinds += ['base_addressx', 'startx_endx', 'startx_length']
     ents = []
@@ -626,20 +657,27 @@ def decoy_spec(ch, form):
 
 def build_case(ch, tier):
     le, A = ch.bool(), ch.choice([4, 8])
-    mode = ch.choice(['v4', 'v4', 'v5', 'v5', 'v5', 'both'])
+    mode = ch.choice(['v4', 'v4', 'v5', 'v5', 'v5', 'both', 'v5x'])
     case = {'le': le, 'addr_size': A, 'cus': []}
+    # 'v5x': lists made of index / LEB128 kinds only (no raw address in the list sections); the units' address size (which governs the
+    # address table) may then differ from the pointer size of the containing file
+    xonly = mode == 'v5x'
+    if xonly:
+        mode = 'v5'
+        if ch.bool(0.7):
+            case['file_addr_size'] = 12 - A
     if mode in ('v4', 'both'):
         case['loc4'] = [gen_v4_list(ch, A, True) for _ in range(ch.int(1, 5))]
         case['rng4'] = [gen_v4_list(ch, A, False) for _ in range(ch.int(1, 5))]
     if mode in ('v5', 'both'):
-        ntab = ch.int(0, 2)
-        case['addr_tables'] = [[ch.word(8 * A - 1) for _ in range(ch.int(1, 6))] for _ in range(ntab)]
+        ntab = ch.int(1, 2) if xonly else ch.int(0, 2)
+        case['addr_tables'] = [[ch.word(8 * A - 1) for _ in range(ch.int(2, 6) if xonly else ch.int(1, 6))] for _ in range(ntab)]
         for key in ('loc5', 'rng5'):
             blocks = []
             for _ in range(ch.choice([1, 1, 2, 3, 4])):
-                at = ch.int(0, ntab - 1) if ntab and ch.bool(0.7) else None
+                at = ch.int(0, ntab - 1) if ntab and (xonly or ch.bool(0.7)) else None
                 naddr = len(case['addr_tables'][at]) if at is not None else 0
-                lists = [gen_v5_list(ch, A, key == 'loc5', naddr) for _ in range(ch.int(1, 5))]
+                lists = [gen_v5_list(ch, A, key == 'loc5', naddr, xonly) for _ in range(ch.int(1, 5))]
                 if key == 'loc5':
                     for L in lists:
                         if ch.bool(0.25):
@@ -809,6 +847,7 @@ def floors(ctx):
             out.append('DW_RLE kind never generated: ' + k)
     for k in ('fetch.loclistx', 'fetch.rnglistx', 'fetch.loclist.v4', 'fetch.loclist.v5', 'fetch.rnglist.v4', 'fetch.rnglist.v5', 'enumerate.loc.v4', 'enumerate.loc.v5',
               'enumerate.rng.v4', 'enumerate.rng.v5', 'blocks.loc', 'blocks.rng', 'blocks.iter_CU_range_lists_ex', 'block.fmt32', 'block.fmt64',
+              'blocks.stepwise.loc', 'blocks.stepwise.rng', 'unit-address-size-differs-from-file',
               'classify.expr', 'classify.list', 'classify.none', 'pair.loc', 'cell.a4.le', 'cell.a4.be', 'cell.a8.le', 'cell.a8.be'):
         if c[k] == 0:
             out.append('no case with ' + k)
